@@ -112,6 +112,7 @@ def cases(rng, tier):
             i = rng.randint(-r, r - 1); p["i"] = i; p["j"] = rng.randint(-lens[i], lens[i] - 1)
         elif f == "col_int":
             p["j"] = rng.randint(-m, m - 1)
+            p["jform"] = rng.choice(["int", "int", "int64", "int32", "intp"])      # the column as a Python int or a numpy integer scalar
             p["rsel"] = rng.choice([{"t": "all"}, {"t": "slice", "a": None, "b": None, "k": -1}])
         elif f == "col_range":
             for _ in range(30):
@@ -214,7 +215,8 @@ def run_impl(p):
             if f == "element":
                 return {"k": "val", "v": _norm(rl[p["i"], p["j"]])}
             if f == "col_int":
-                return {"k": "val", "v": _norm(rl[ragidx.py_rowsel(p["rsel"], 1) if p["rsel"]["t"] != "all" else slice(None), p["j"]])}
+                j = p["j"] if p.get("jform", "int") == "int" else np.dtype(p["jform"]).type(p["j"])
+                return {"k": "val", "v": _norm(rl[ragidx.py_rowsel(p["rsel"], 1) if p["rsel"]["t"] != "all" else slice(None), j])}
             if f == "col_range":
                 rs = ragidx.py_rowsel(p["rsel"], 1) if p["rsel"]["t"] != "all" else slice(None)
                 return {"k": "val", "v": _norm(rl[rs, slice(p["a"], p["b"], p["s"])])}
